@@ -163,6 +163,7 @@ var registry = map[string]propDef{
 	"C14v": {"other", props.C14valid},
 	"C14d": {"other", props.C14depth},
 	"C14k": {"other", props.C14seen},
+	"C02s": {"other", props.C14seen},
 	"C14x": {"other", props.C14typetext},
 	"C14t": {"other", props.C14types},
 	"C14b": {"other", props.C14bristol},
